@@ -43,6 +43,9 @@ PS_USES = {
     "verify": "use nom :: combinator :: verify ;",
     "be_u16": "use nom :: number :: streaming :: be_u16 ;",
     "be_u8": "use nom :: number :: streaming :: be_u8 ;",
+    "be_u24": "use nom :: number :: streaming :: be_u24 ;",
+    "byte_tag": "use nom :: bytes :: streaming :: tag as byte_tag ;",
+    "many_till": "use nom :: multi :: many_till ;",
     "error_position": "use nom :: error_position ;",
     "IResult": "use nom :: IResult ;",
     "Offset": "use nom :: Offset ;",
@@ -70,6 +73,13 @@ PS_NOM = {
     "verify": ("src/combinator/mod.rs", "verify", "verifyP p c: Error unless c holds of the value of p"),
     "byte_take": ("src/bytes/streaming.rs", "take", "byteTake n: fewer than n bytes -> Incomplete; else the next n bytes"),
     "be_u8": ("src/number/streaming.rs", "be_u8", "beU 1: one byte; empty input -> Incomplete"),
+    "byte_tag": ("src/bytes/streaming.rs", "tag",
+                 "byteTagP t: Error if the available prefix differs from t, Incomplete if it matches but is shorter, else the rest"),
+    "many_till": ("src/multi/mod.rs", "many_till",
+                  "manyTillEof f (second parser = nom::combinator::eof): at the end of input Ok(collected); otherwise run f: any Err is "
+                  "returned, a success that consumes nothing is Error; iterated with fuel len + 1 (`none` = fuel exhausted, impossible "
+                  "because every iteration consumes input)"),
+    "be_u24": ("src/number/streaming.rs", "be_u24", "beU 3: three bytes, big endian, as a u32; short input -> Incomplete"),
     "be_u16": ("src/number/streaming.rs", "be_u16", "beU 2: two bytes, big endian; short input -> Incomplete"),
     "many_m_n": ("src/multi/mod.rs", "many_m_n",
                  "manyMNS n s f (min = max = n): up to n runs of f; Err::Error from f -> Error (count < min); any other Err is "
@@ -119,6 +129,16 @@ PS_CALLEES = {
     ("QuantizedParameters", "new"): ("datatype.rs", ["coefs : & [ i16 ]", "order : usize", "shift : i8", "precision : usize"],
                                      "Result < Self , VerifyError >", None,
                                      "FlacVerif.Gen.Verify.QuantizedParameters.new", True, ("res", ("comp", "QuantizedParameters"))),
+    ("MetadataBlockData", "new_unknown"): ("datatype.rs", ["tag : u8", "data : & [ u8 ]"], "Result < Self , VerifyError >", None,
+                                           "FlacVerif.Gen.Verify.MetadataBlockData.new_unknown", True,
+                                           ("res", ("comp", "MetadataBlockData"))),
+    ("Stream", "with_stream_info"): ("datatype.rs", ["stream_info : StreamInfo"], "Self", None,
+                                     "Stream_with_stream_info", False, ("comp", "Stream")),
+    ("MetadataBlock", "from_parts"): ("datatype.rs", ["is_last : bool", "data : MetadataBlockData"], "Self", None,
+                                      "MetadataBlock_from_parts", False, ("comp", "MetadataBlock")),
+    ("StreamInfo", "new"): ("datatype.rs", ["sample_rate : usize", "channels : usize", "bits_per_sample : usize"],
+                            "Result < Self , VerifyError >", None,
+                            "FlacVerif.Gen.Verify.StreamInfo.new", True, ("res", ("comp", "StreamInfo"))),
     ("Frame", "from_parts"): ("datatype.rs", ["header : FrameHeader", "subframes : Vec < SubFrame >"], "Self", None,
                               "Frame_from_parts", False, ("comp", "Frame")),
     ("FrameHeader", "from_specs"): ("datatype.rs", ["block_size_spec : BlockSizeSpec", "channel_assignment : ChannelAssignment",
@@ -135,12 +155,18 @@ PS_CALLEE_FP = {
     ("QuantizedParameters", "new"): None,     # translated by part `verify` (Gen/Verify.lean, theorem C18G_qparams_new): no fingerprint
     ("FrameHeader", "from_specs"): "46377fcb4c7c67d6",
     ("Frame", "from_parts"): "93c34241bf40a108",
+    ("StreamInfo", "new"): None,
+    ("MetadataBlockData", "new_unknown"): None,
+    ("MetadataBlock", "from_parts"): "f6e7fa6b0e2ff509",
+    ("Stream", "with_stream_info"): "da9836ddab3f3196",
 }
 # constants of datatype.rs used in parameter types: name -> (`use` line that must be present, key of constant.rs)
 PS_DT_CONSTS = {"MAX_LPC_ORDER": ("use crate :: constant :: qlpc :: MAX_ORDER as MAX_LPC_ORDER ;", "qlpc.MAX_ORDER")}
 
 # accessors of datatype.rs: (owner, name) -> (exact token text of the body, lean term with {r} = receiver, result type)
 PS_ACCESSORS = {
+    ("MetadataBlockData", "as_stream_info"): ("{ if let Self :: StreamInfo ( ref info ) = self { Some ( info ) } else { None } }",
+                                              "(match {r} with | .StreamInfo s => some s | _ => none)", ("opt", ("comp", "StreamInfo"))),
     ("StreamInfo", "channels"): ("{ self . channels as usize }", "{r}.channels", "usize"),
     ("StreamInfo", "bits_per_sample"): ("{ self . bits_per_sample as usize }", "{r}.bps", "usize"),
     ("FrameHeader", "channel_assignment"): ("{ & self . channel_assignment }", "{r}.channel_assignment", ("hdr", "ChannelAssignment")),
@@ -154,6 +180,34 @@ PS_CRC = {
     "FRAME_CRC": ("pub static FRAME_CRC : crc :: Crc < u16 , crc :: Table < 16 >> = crc :: Crc :: < u16 , crc :: Table < 16 >> :: new ( & CRC_16_FLAC ) ;",
                   "FlacVerif.rfcCrc16", "u16"),
 }
+# `&mut self` methods of StreamInfo called as statements: name -> (kind, lean, parameter types, check)
+#   "pure": generated by part `verify`, cannot fail;  "vres": generated by part `verify`, `Option (Bool x StreamInfo)` (panic / Ok? + self);
+#   "read": hand-written reading in the prelude, (exact parameter text, exact body text) compared with datatype.rs
+PS_SETTERS = {
+    "set_total_samples": ("pure", "FlacVerif.Gen.Verify.StreamInfo.set_total_samples", ["usize"], None),
+    "set_block_sizes": ("vres", "FlacVerif.Gen.Verify.StreamInfo.set_block_sizes", ["usize", "usize"], None),
+    "set_frame_sizes": ("vres", "FlacVerif.Gen.Verify.StreamInfo.set_frame_sizes", ["usize", "usize"], None),
+    "set_md5_digest": ("read", "StreamInfo_set_md5_digest", [("arr", "u8", 16)],
+                       ("& mut self | digest : & [ u8 ; 16 ]", "{ self . md5 . copy_from_slice ( digest ) ; }")),
+}
+# `From` impls used through `Into::into`: source -> (target, lean constructor, token text of the impl that must be present)
+PS_INTO_FROM = {"StreamInfo": ("MetadataBlockData", "FlacVerif.Gen.Writer.MetadataBlockData.StreamInfo",
+                               "impl From < StreamInfo > for MetadataBlockData { fn from ( value : StreamInfo ) -> Self { Self :: StreamInfo ( value ) } }")}
+# fields read directly: (struct, field) -> (token text of the struct definition that must be present, lean projection, type)
+PS_FIELDS = {
+    ("MetadataBlock", "data"): ("pub struct MetadataBlock { pub ( crate ) is_last : bool , pub ( crate ) data : MetadataBlockData , }",
+                                "data", ("comp", "MetadataBlockData")),
+    ("MetadataBlock", "is_last"): ("pub struct MetadataBlock { pub ( crate ) is_last : bool , pub ( crate ) data : MetadataBlockData , }",
+                                   "is_last", "bool"),
+}
+# `&mut self` methods of Stream called as statements (hand-written readings; exact parameter and body text compared)
+PS_STREAM_METHODS = {
+    "add_metadata_block": ("Stream_add_metadata_block", [("comp", "MetadataBlockData")], "& mut self | metadata : MetadataBlockData",
+                           "{ let metadata = MetadataBlock :: from_parts ( true , metadata ) ; if let Some ( x ) = self . metadata . last_mut ( ) "
+                           "{ x . is_last = false ; } else { self . stream_info . is_last = false ; } self . metadata . push ( metadata ) ; }"),
+}
+PS_FRAMES_MUT = ("& mut self", "{ & mut self . frames }")
+PS_FROM_STREAM_INFO = "const fn from_stream_info ( info : StreamInfo , is_last : bool ) -> Self { Self { is_last , data : MetadataBlockData :: StreamInfo ( info ) , } }"
 PS_FRAME_OFFSET = "pub enum FrameOffset { Frame ( u32 ) , StartSample ( u64 ) , }"
 
 PS_RESERVED = {"dbg", "bindP", "bindO", "okP", "errP", "loopP", "takeBits", "tagBits", "altP", "mapP", "some", "none", "crc8"}
@@ -279,7 +333,11 @@ def make_parser_class():
             return ("let", pat, ty, e)
 
         def while_(self):
-            self.err("`while` loop")
+            self.eat("while")
+            save, self.struct_ok = self.struct_ok, False
+            c = self.expr()
+            self.struct_ok = save
+            return ("while", c, self.block())
 
         def postfix(self):
             e = self.primary()
@@ -381,7 +439,8 @@ def make_parser_class():
 
 # ---------------------------------------------------------------------------------------------- translation
 
-COMP_LEAN = {"StreamInfo": "FlacVerif.StreamInfo", "Frame": "FlacVerif.Gen.Writer.Frame", "Residual": "FlacVerif.Residual", "Constant": "FlacVerif.SubFrame", "Verbatim": "FlacVerif.SubFrame",
+COMP_LEAN = {"Stream": "FlacVerif.Gen.Writer.Stream", "MetadataBlockData": "FlacVerif.Gen.Writer.MetadataBlockData", "MetadataBlock": "FlacVerif.Gen.Writer.MetadataBlock",
+             "StreamInfo": "FlacVerif.StreamInfo", "Frame": "FlacVerif.Gen.Writer.Frame", "Residual": "FlacVerif.Residual", "Constant": "FlacVerif.SubFrame", "Verbatim": "FlacVerif.SubFrame",
              "FixedLpc": "FlacVerif.SubFrame", "Lpc": "FlacVerif.SubFrame", "SubFrame": "FlacVerif.SubFrame",
              "QuantizedParameters": "FlacVerif.QParams", "FrameHeader": "FlacVerif.Gen.Writer.FrameHeader"}
 HDR_ENUMS = ("BlockSizeSpec", "SampleRateSpec", "SampleSizeSpec", "ChannelAssignment")
@@ -503,6 +562,11 @@ class PsTx:
         if t[0] == "(" and t[-1] == ")":
             parts = T.wr_split_top(t[1:-1])
             return ("tuple", [self.pty(p, what) for p in parts if p])
+        if t[0] == "Result" and t[1] == "<" and t[-1] == ">":
+            parts = T.wr_split_top(t[2:-1])
+            if len(parts) != 2 or parts[1] != ["VerifyError"]:
+                self.err(f"{what}: Result type `{' '.join(toks)}`")
+            return ("res", self.pty(parts[0], what))
         if t[0] == "IResult" and t[1] == "<" and t[-1] == ">":
             parts = T.wr_split_top(t[2:-1])
             if len(parts) != 3:
@@ -598,6 +662,8 @@ class PsTx:
 
     # ------------------------------------------------------------------ steps
     def ret_ok(self, lean):
+        if self.mon == "vr":
+            return f"some (some {par(lean)})"
         return f"okP {par(lean)}" if self.mon == "pm" else f"some {par(lean)}"
 
     def step(self, term, ty, k, hint=None):
@@ -638,6 +704,9 @@ class PsTx:
         if ty[0] == "nres":
             n = self.fresh("r")
             return f"bindO {par(v.lean)} fun {n} =>\n{k_pat(V(n, ty[1]))}"
+        if ty[0] == "res" and self.mon == "vr":
+            n = self.fresh("r")
+            return f"bindR {par(v.lean)} fun {n} =>\n{k_pat(V(n, ty[1]))}"
         self.err(f"`?` on a value of type {self.show(ty)}")
 
     # ------------------------------------------------------------------ expressions (CPS)
@@ -684,11 +753,11 @@ class PsTx:
                 return k(V(str(self.consts[name][0]), self.consts[name][1], self.consts[name][0]))
             if name == "None":
                 return k(V("none", ("opt", self.tv(what="payload of None"))))
-            if name in ("be_u8", "be_u16"):
+            if name in ("be_u8", "be_u16", "be_u24"):
                 self.nom(name)
                 self.check_use(name)
-                n = 1 if name == "be_u8" else 2
-                return k(V(f"(beU {n})", ("parser", BYTES, "u8" if n == 1 else "u16")))
+                n = {"be_u8": 1, "be_u16": 2, "be_u24": 3}[name]
+                return k(V(f"(beU {n})", ("parser", BYTES, {1: "u8", 2: "u16", 3: "u32"}[n])))
             if name in self.items.fns:
                 rec = self.need(name)
                 if rec["kind"] == "ires" and len(rec["ptys"]) == 1:
@@ -732,6 +801,19 @@ class PsTx:
             return self.tx_index(e, env, k)
         if kind == "return":
             return self.tx_return(e, env)
+        if kind == "field":
+            def fld(r):
+                t = rs(r.ty)
+                if not (isinstance(t, tuple) and t[0] == "comp" and (t[1], e[2]) in PS_FIELDS):
+                    self.err(f"field access `.{e[2]}` on a value of type {self.show(t)}")
+                text, proj, fty = PS_FIELDS[(t[1], e[2])]
+                dtt = re.sub(r"# \[ [^\]]*\] ", "", " ".join(self.files["datatype.rs"].toks))
+                if text not in dtt:
+                    self.err(f"datatype.rs: `{text}` not found")
+                return k(V(f"{par(r.lean)}.{proj}", fty))
+            return self.tx(e[1], env, None, fld)
+        if kind == "array" and not e[1]:
+            return k(V("[]", ("vec", self.tv(what="vector element"))))
         if kind == "path":
             segs = e[1]
             if len(segs) == 3 and segs[0] == "component" and segs[1] in HDR_ENUMS:
@@ -1034,8 +1116,11 @@ class PsTx:
                 return k(V(f"(tagBits {self.width(p.ty)} {p.lit} {par(n.lean)})", ("parser", BITIN, p.ty)))
             return self.tx(args[0], env, None, lambda p: self.tx(args[1], env, "usize", lambda n: tg(p, n)))
         if name == "byte_take":
-            return self.tx(args[0], env, "usize", lambda n: (self.unify(n.ty, "usize", "byte_take count"), k(V(
-                f"(byteTake {par(n.lean)})", ("parser", BYTES, BYTES))))[1])
+            def bt(n):
+                if not is_u(self.known_int(n.ty, "byte_take count")):
+                    self.err("byte_take count of a signed type")
+                return k(V(f"(byteTake {par(n.lean)})", ("parser", BYTES, BYTES)))
+            return self.tx(args[0], env, None, bt)
         if name == "many0_count":
             return self.tx(args[0], env, None, lambda p: k(V(f"(many0Count {p.lean})", ("parser", self.ptype(p)[1], "usize"))))
         if name == "bits" and self.strip(args[0])[0] != "closure":
@@ -1070,6 +1155,14 @@ class PsTx:
                     cw = wr_[2] if isinstance(wr_, tuple) and wr_[0] == "parser" else None
                     lam, rty = self.closure(f, [pt[2]], "opt", env, cw)
                     return k(V(f"(mapP {p.lean} {lam})", ("parser", pt[1], rty)))
+                if f[0] == "path" and f[1] == ["Into", "into"]:
+                    src = rs(pt[2])
+                    if not (isinstance(src, tuple) and src[0] == "comp" and src[1] in PS_INTO_FROM):
+                        self.err(f"map(.., Into::into) of a parser of {self.show(src)}")
+                    dst, ctor, text = PS_INTO_FROM[src[1]]
+                    if text not in " ".join(self.files["datatype.rs"].toks):
+                        self.err(f"datatype.rs: `{text}` not found")
+                    return k(V(f"(mapP {p.lean} (fun x => some ({ctor} x)))", ("parser", pt[1], ("comp", dst))))
                 if f[0] == "path" and f[1][0] == "FrameOffset" and len(f[1]) == 2:
                     arg = {"Frame": "u32", "StartSample": "u64"}.get(f[1][1])
                     if arg is None:
@@ -1080,6 +1173,21 @@ class PsTx:
                     return k(V(f"(mapP {p.lean} (fun x => some (FlacVerif.Gen.Verify.FrameOffset.{f[1][1]} x)))", ("parser", pt[1], ("foff",))))
                 self.err("second argument of map")
             return self.tx(args[0], env, None, mp)
+        if name == "byte_tag":
+            a0 = self.strip(args[0])
+            if len(args) != 1 or a0[0] != "str" or not re.fullmatch(r'"[A-Za-z0-9]*"', a0[1]):
+                self.err("byte_tag argument that is not a plain ASCII string literal")
+            bytes_ = ", ".join(str(ord(ch)) for ch in a0[1][1:-1])
+            return k(V(f"(byteTagP [{bytes_}])", ("parser", BYTES, BYTES)))
+        if name == "many_till":
+            if len(args) != 2 or self.strip(args[1]) != ("path", ["nom", "combinator", "eof"]):
+                self.err("many_till whose second parser is not nom::combinator::eof")
+
+            def mt(p):
+                pt = self.ptype(p)
+                self.unify(pt[1], BYTES, "many_till input")
+                return k(V(f"(manyTillEof {p.lean})", ("parser", BYTES, ("tuple", [("vec", pt[2]), BYTES]))))
+            return self.tx(args[0], env, None, mt)
         if name == "many_m_n":
             if len(args) != 3 or args[0] != args[1]:
                 self.err("many_m_n(min, max, f) with min and max not the same expression")
@@ -1168,10 +1276,28 @@ class PsTx:
             return self.tx(c, env, wp, app)
         if c[0] == "var":
             name = self.local_name(c[1])
+            if name in env and isinstance(env[name].ty, tuple) and env[name].ty[0] == "closure0" and not args:
+                c0, cenv = env[name].ty[1], env[name].ty[2]
+                saved = (self.mon, self.loop_exit)
+                self.mon, self.loop_exit = "vr", None
+                box = []
+                try:
+                    def fin(v):
+                        t = rs(v.ty)
+                        if not (isinstance(t, tuple) and t[0] == "res"):
+                            self.err("a closure called as a function does not return a Result<_, VerifyError>")
+                        box.append(t)
+                        return f"some {par(v.lean)}"
+                    body = self.tx(c0[2], dict(cenv), None, fin)
+                finally:
+                    self.mon, self.loop_exit = saved
+                return self.step("\n" + ind(body, 4), box[0], k)
             if name in env:
                 p = env[name]
                 pt = self.ptype(p)
                 return self.tx(args[0], env, pt[1], lambda i: k(V(f"{p.lean} {par(i.lean)}", ("ires", pt[1], pt[2]))))
+            if name == "Ok" and len(args) == 1 and self.mon == "vr":
+                return self.tx(args[0], env, None, lambda v: k(V(f"(some {par(v.lean)})", ("res", v.ty))))
             if name == "Ok" and len(args) == 1:
                 def ok(v):
                     t = rs(v.ty)
@@ -1185,15 +1311,19 @@ class PsTx:
                 return k(V("errP", ("ires", self.tv(), self.tv())))
             if name == "Some" and len(args) == 1:
                 return self.tx(args[0], env, None, lambda v: k(V(f"(some {par(v.lean)})", ("opt", v.ty))))
-            if name in ("be_u8", "be_u16"):
+            if name in ("be_u8", "be_u16", "be_u24"):
                 self.nom(name)
-                n = 1 if name == "be_u8" else 2
-                return self.tx(args[0], env, BYTES, lambda i: k(V(f"beU {n} {par(i.lean)}", ("ires", BYTES, "u8" if n == 1 else "u16"))))
+                self.check_use(name)
+                n = {"be_u8": 1, "be_u16": 2, "be_u24": 3}[name]
+                return self.tx(args[0], env, BYTES, lambda i: k(V(f"beU {n} {par(i.lean)}", ("ires", BYTES, {1: "u8", 2: "u16", 3: "u32"}[n]))))
             if name in PS_NOM and name in PS_USES:
                 self.check_use(name)
                 return self.parser_value(name, args, env, want, k)
             if name == "many_m_n":
                 self.check_use_text("use nom :: multi :: many_m_n ;")
+                return self.parser_value(name, args, env, want, k)
+            if name in ("byte_tag", "many_till"):
+                self.check_use(name)
                 return self.parser_value(name, args, env, want, k)
             if name in self.items.fns:
                 return self.local_call(name, args, env, k)
@@ -1341,7 +1471,7 @@ class PsTx:
             return ("vec", t[1])
         if t[0] == "Vec":
             return ("vec", t[2] if t[2] in UBITS or t[2] in SBITS else ("comp", t[2]))
-        if len(t) == 1 and (t[0] in UBITS or t[0] in SBITS):
+        if len(t) == 1 and (t[0] in UBITS or t[0] in SBITS or t[0] == "bool"):
             return t[0]
         if len(t) == 1 and t[0] in HDR_ENUMS:
             return ("hdr", t[0])
@@ -1362,6 +1492,8 @@ class PsTx:
                      f"was written for ({', '.join(params)}) -> {ret}")
         lo, hi = rec["body"]
         got = fp(items.toks[lo:hi])
+        if key == ("Stream", "with_stream_info") and PS_FROM_STREAM_INFO not in " ".join(items.toks):
+            self.err("datatype.rs: MetadataBlock::from_stream_info is not the function the reading was written for")
         if PS_CALLEE_FP[key] is None:
             if self.status.get("verify") != "ok":
                 self.err(f"{key[0]}::{key[1]} is generated by part `verify`, which failed")
@@ -1443,6 +1575,8 @@ class PsTx:
                 self.used_hdr.add(ln)
                 return self.args_then(args, ptys, env, lambda vs: ([self.unify(v.ty, t, f"argument of {ln}") for v, t in zip(vs, ptys)], k(V(
                     f"(FlacVerif.Gen.Headers.{ln} {par(r.lean)} " + " ".join(par(v.lean) for v in vs) + ")", rty)))[1])
+            if name == "clone" and not args and isinstance(ty, tuple) and ty[0] == "comp":
+                return k(r)
             if name == "into" and not args:
                 w = rs(want) if want is not None else None
                 if not is_int(w):
@@ -1536,6 +1670,22 @@ class PsTx:
                     add(root[1])
                 visit(x[3], shadow)
                 return
+            if x[0] == "mcall" and x[2] in PS_STREAM_METHODS:
+                root = self.strip(x[1])
+                if root[0] == "var" and root[1] not in shadow:
+                    add(root[1])
+            if x[0] == "mcall" and x[2] == "push" and self.strip(x[1])[0] == "mcall" and self.strip(x[1])[2] == "frames_mut":
+                root = self.strip(self.strip(x[1])[1])
+                if root[0] == "var" and root[1] not in shadow:
+                    add(root[1])
+            if x[0] == "while":
+                visit(x[1], shadow)
+                visit(x[2], shadow)
+                return
+            if x[0] == "mcall" and x[2] in PS_SETTERS:
+                root = self.strip(x[1])
+                if root[0] == "var" and root[1] not in shadow:
+                    add(root[1])
             if x[0] == "mcall" and x[2] == "push":
                 root = self.strip(x[1])
                 if root[0] == "var" and root[1] not in shadow:
@@ -1593,6 +1743,8 @@ class PsTx:
                         f = "bindP"
                     elif isinstance(t, tuple) and t[0] == "nres":
                         comp, f = t[1], "bindO"
+                    elif isinstance(t, tuple) and t[0] == "res" and self.mon == "vr":
+                        comp, f = t[1], "bindR"
                     else:
                         self.err(f"`?` on a value of type {self.show(t)}")
                     if dty is not None:
@@ -1604,6 +1756,10 @@ class PsTx:
                 if dty is not None and isinstance(rs(dty), tuple) and rs(dty)[0] == "tuple" and len(rs(dty)[1]) == 2:
                     wi = ("ires", rs(dty)[1][0], rs(dty)[1][1])
                 return self.tx(v0[1], env, wi, got)
+
+            if v0[0] == "closure" and not v0[1] and pat[0] == "bind" and ty is None:
+                env2[pat[1]] = V(None, ("closure0", v0, dict(env)))
+                return rest(env2)
 
             def bound(v):
                 vt = v.ty
@@ -1641,7 +1797,7 @@ class PsTx:
         if kd == "assert":
             return self.tx(st[1], env, "bool", lambda c: self.step(
                 f"req (!dbg || {c.lean})" if st[2] else f"req {c.lean}", "unit", lambda _: rest(env), hint="_"))
-        if kd == "mcall" and st[2] == "push" and len(st[3]) == 1:
+        if kd == "mcall" and st[2] == "push" and len(st[3]) == 1 and self.strip(st[1])[0] != "mcall":
             x = self.strip(st[1])
             if x[0] != "var" or x[1] not in env:
                 self.err("`.push` on something other than a local vector")
@@ -1654,6 +1810,29 @@ class PsTx:
                 self.unify(v.ty, vt[1], "`.push`")
                 return f"let {var.lean} : {self.lty(var.ty)} := {var.lean} ++ [{v.lean}]\n{rest(env)}"
             return self.tx(st[3][0], env, vt[1], pushed)
+        m_ = st[1] if kd == "try" else st
+        if m_[0] == "mcall" and m_[2] in PS_SETTERS and self.strip(m_[1])[0] == "var" and self.strip(m_[1])[1] in env \
+                and rs(env[self.strip(m_[1])[1]].ty) == ("comp", "StreamInfo"):
+            return self.st_setter(m_, kd == "try", env, rest)
+        if kd == "mcall" and self.strip(st[1])[0] == "var" and self.strip(st[1])[1] in env \
+                and rs(env[self.strip(st[1])[1]].ty) == ("comp", "Stream") and st[2] in PS_STREAM_METHODS:
+            lean, ptys, ptext, btext = PS_STREAM_METHODS[st[2]]
+            self.check_method_text("Stream", st[2], ptext, btext)
+            var = env[self.strip(st[1])[1]]
+            return self.args_then(st[3], ptys, env, lambda vs: (
+                [self.unify(v.ty, t, f"argument of Stream::{st[2]}") for v, t in zip(vs, ptys)],
+                f"let {var.lean} : {self.lty(var.ty)} := {lean} {var.lean} " + " ".join(par(v.lean) for v in vs) + f"\n{rest(env)}")[1])
+        if kd == "mcall" and st[2] == "push" and len(st[3]) == 1 and self.strip(st[1])[0] == "mcall" \
+                and self.strip(st[1])[2] == "frames_mut" and not self.strip(st[1])[3]:
+            rv = self.strip(self.strip(st[1])[1])
+            if rv[0] != "var" or rv[1] not in env or rs(env[rv[1]].ty) != ("comp", "Stream"):
+                self.err("`.frames_mut()` on something other than a local Stream")
+            self.check_method_text("Stream", "frames_mut", PS_FRAMES_MUT[0], PS_FRAMES_MUT[1])
+            var = env[rv[1]]
+            return self.tx(st[3][0], env, ("comp", "Frame"), lambda v: (self.unify(v.ty, ("comp", "Frame"), "pushed frame"),
+                f"let {var.lean} : {self.lty(var.ty)} := Stream_push_frame {var.lean} {par(v.lean)}\n{rest(env)}")[1])
+        if kd == "while":
+            return self.st_while(st, env, rest)
         if kd == "mcall" and st[2] == "set_frame_offset" and len(st[3]) == 1:
             x = self.strip(st[1])
             if x[0] != "var" or x[1] not in env or rs(env[x[1]].ty) != ("comp", "FrameHeader"):
@@ -1676,7 +1855,20 @@ class PsTx:
                     a = self.tx(st[2], dict(env), None, lambda v: self.err("a diverging block produced a value"))
                     return f"if {cv.lean} then\n{ind(a)}\nelse\n{rest(env)}"
                 return self.tx(st[1], env, "bool", c)
-            self.err("`if` statement whose branch falls through")
+            if st[3] is not None:
+                self.err("`if` / `else` statement whose branches fall through")
+            state = self.assigned(st[2], env)
+            for n_ in state:
+                env[n_] = V(T.wr_mangle(n_), env[n_].ty)
+            sp = self.state_pat(state, env)
+
+            def c2(cv):
+                self.unify(cv.ty, "bool", "condition")
+                a = self.walk(st[2][1], st[2][2], dict(env), lambda env3, v: self.ret_ok(self.state_pat(state, env3)))
+                self.steps += 1
+                b = {"pm": "bindP", "vr": "bindVR", "opt": "Option.bind"}[self.mon]
+                return f"{b} (if {cv.lean} then\n{ind(a, 4)}\n  else {self.ret_ok(sp)}) fun {sp} =>\n{rest(env)}"
+            return self.tx(st[1], env, "bool", c2)
         if kd == "return":
             return self.tx_return(st, env)
         if kd == "continue":
@@ -1684,6 +1876,89 @@ class PsTx:
                 self.err("`continue` outside a loop")
             return self.loop_exit(env)
         self.err(f"statement kind `{kd}`")
+
+    def check_method_text(self, owner, name, ptext, btext):
+        dt = self.files["datatype.rs"]
+        rec = (dt.impls.get((None, owner)) or {}).get(name)
+        if rec is None or rec["body"] is None:
+            self.err(f"datatype.rs: fn {owner}::{name} not found")
+        lo, hi = rec["body"]
+        if " | ".join(" ".join(p) for p in rec["params"]) != ptext or " ".join(dt.toks[lo:hi]) != btext:
+            self.err(f"datatype.rs: fn {owner}::{name} is not the function the reading was written for")
+
+    def st_while(self, st, env, rest):
+        cond, body = st[1], st[2]
+        state = self.assigned(body, env)
+        for n_ in state:
+            env[n_] = V(T.wr_mangle(n_), env[n_].ty)
+        inputs = [n_ for n_ in state if rs(env[n_].ty) == BYTES]
+        if self.mon != "pm" or len(inputs) != 1:
+            self.err("`while` loop whose state does not contain exactly one byte input (the fuel of its reading)")
+        sp = self.state_pat(state, env)
+        before = self.steps
+        box = []
+        ctext = self.tx(cond, dict(env), "bool", lambda c: (box.append(c), "")[1])
+        if self.steps != before or ctext != "":
+            self.err("condition of `while` can panic")
+        saved = self.loop_exit
+        self.loop_exit = lambda env3: self.ret_ok(self.state_pat(state, env3))
+        try:
+            b = self.walk(body[1], body[2], dict(env), lambda env3, v: self.loop_exit(env3))
+        finally:
+            self.loop_exit = saved
+        self.steps += 1
+        fuel = f"({env[inputs[0]].lean}.length + 1)"
+        return (f"bindP (whileP (fun {sp} => {box[0].lean}) (fun {sp} =>\n{ind(b, 4)}) {fuel} {sp}) fun {sp} =>\n{rest(env)}")
+
+    def st_setter(self, m, tried, env, rest):
+        name = m[2]
+        kind, lean, ptys, check = PS_SETTERS[name]
+        var = env[self.strip(m[1])[1]]
+        if self.status.get("verify") != "ok" and kind != "read":
+            self.err(f"StreamInfo::{name} is generated by part `verify`, which failed")
+        if (kind == "vres") != tried:
+            self.err(f"StreamInfo::{name}: `?` expected exactly on a method returning Result")
+        if kind == "read":
+            dt = self.files["datatype.rs"]
+            rec = (dt.impls.get((None, "StreamInfo")) or {}).get(name)
+            if rec is None or rec["body"] is None:
+                self.err(f"datatype.rs: fn StreamInfo::{name} not found")
+            lo, hi = rec["body"]
+            if " | ".join(" ".join(p) for p in rec["params"]) != check[0] or " ".join(dt.toks[lo:hi]) != check[1]:
+                self.err(f"datatype.rs: fn StreamInfo::{name} is not the function the reading was written for")
+        if len(m[3]) != len(ptys):
+            self.err(f"StreamInfo::{name}: arguments")
+        vals = []
+
+        def done():
+            al = " ".join(par(v.lean) for v in vals)
+            vt = self.lty(var.ty)
+            if kind == "vres":
+                if self.mon != "vr":
+                    self.err(f"`StreamInfo::{name}(..)?` outside a closure returning Result<_, VerifyError>")
+                self.steps += 1
+                n = self.fresh("r")
+                return (f"({lean} {var.lean} {al}).bind fun {n} =>\nif {n}.1 then\n"
+                        + ind(f"let {var.lean} : {vt} := {n}.2\n{rest(env)}") + "\nelse\n  some none")
+            return f"let {var.lean} : {vt} := {lean} {var.lean} {al}\n{rest(env)}"
+
+        def arg(i):
+            if i == len(ptys):
+                return done()
+            pt, a = ptys[i], m[3][i]
+            if isinstance(pt, tuple) and pt[0] == "arr":
+                a0 = self.strip(a)
+                if not (a0[0] == "mcall" and a0[2] == "expect" and len(a0[3]) == 1 and a0[3][0][0] == "str"
+                        and self.strip(a0[1])[0] == "mcall" and self.strip(a0[1])[2] == "try_into" and not self.strip(a0[1])[3]):
+                    self.err(f"StreamInfo::{name}: the argument is not `slice.try_into().expect(..)`")
+
+                def sl(x):
+                    self.unify(x.ty, ("vec", pt[1]), "try_into of a slice")
+                    vals.append(x)
+                    return self.step(f"req (decide ({par(x.lean)}.length = {pt[2]}))", "unit", lambda _: arg(i + 1), hint="_")
+                return self.tx(self.strip(a0[1])[1], env, None, sl)
+            return self.tx(a, env, pt, lambda v: (self.unify(v.ty, pt, f"argument of StreamInfo::{name}"), vals.append(v), arg(i + 1))[2])
+        return arg(0)
 
     def st_for(self, st, env, rest):
         pat, it, body = st[1], st[2], st[3]
@@ -2048,6 +2323,65 @@ def manyMNSAux {σ α : Type} (f : σ → List Bool → Option (σ × PM (List B
 def manyMNS {σ α : Type} (n : Nat) (s : σ) (f : σ → List Bool → Option (σ × PM (List Bool × α))) (i : List Bool) :
     PM (List Bool × List α) := manyMNSAux f n s i []
 
+/-- `x?` on a `Result<_, VerifyError>` inside a closure returning such a Result (`none` = Err) -/
+def bindR {α β : Type} (x : Option α) (f : α → Option (Option β)) : Option (Option β) :=
+  match x with
+  | none => some none
+  | some v => f v
+
+/-- join after an `if` that falls through, inside such a closure -/
+def bindVR {σ β : Type} (x : Option (Option σ)) (f : σ → Option (Option β)) : Option (Option β) :=
+  x.bind fun o => bindR o f
+
+/-- reading of `StreamInfo::set_md5_digest`: `self.md5.copy_from_slice(digest)` with a 16-byte array -/
+def StreamInfo_set_md5_digest (s : FlacVerif.StreamInfo) (d : List Nat) : FlacVerif.StreamInfo := { s with md5 := d }
+
+/-- `nom::bytes::streaming::tag(t)` -/
+def byteTagP (t : List Nat) (i : List Nat) : PM (List Nat × List Nat) :=
+  let m := min t.length i.length
+  if i.take m ≠ t.take m then errP
+  else if i.length < t.length then some (.error .incomplete)
+  else okP (i.drop t.length, i.take t.length)
+
+/-- `while c { body }` inside a parser, with fuel (`none` = fuel exhausted) -/
+def whileP {σ : Type} (c : σ → Bool) (f : σ → PM σ) : Nat → σ → PM σ
+  | 0, s => if c s then none else okP s
+  | n + 1, s => if c s then bindP (f s) fun s' => whileP c f n s' else okP s
+
+/-- `many_till(f, eof)` with fuel `len + 1` -/
+def manyTillEofAux {α : Type} (f : List Nat → PM (List Nat × α)) : Nat → List Nat → List α → PM (List Nat × (List α × List Nat))
+  | 0, _, _ => none
+  | n + 1, i, acc =>
+    if i.length = 0 then okP (i, (acc, i))
+    else
+      match f i with
+      | none => none
+      | some (.error e) => some (.error e)
+      | some (.ok (i1, o)) => if i1.length = i.length then errP else manyTillEofAux f n i1 (acc ++ [o])
+
+def manyTillEof {α : Type} (f : List Nat → PM (List Nat × α)) (i : List Nat) : PM (List Nat × (List α × List Nat)) :=
+  manyTillEofAux f (i.length + 1) i []
+
+/-- reading of `Stream::with_stream_info` (with `MetadataBlock::from_stream_info(info, true)`) -/
+def Stream_with_stream_info (s : FlacVerif.StreamInfo) : FlacVerif.Gen.Writer.Stream :=
+  { stream_info := { is_last := true, data := .StreamInfo s }, metadata := [], frames := [] }
+
+/-- reading of `Stream::add_metadata_block`: the previous last block (or the STREAMINFO block) loses its last flag -/
+def Stream_add_metadata_block (s : FlacVerif.Gen.Writer.Stream) (m : FlacVerif.Gen.Writer.MetadataBlockData) : FlacVerif.Gen.Writer.Stream :=
+  let s : FlacVerif.Gen.Writer.Stream :=
+    match s.metadata.getLast? with
+    | some x => { s with metadata := s.metadata.dropLast ++ [{ x with is_last := false }] }
+    | none => { s with stream_info := { s.stream_info with is_last := false } }
+  { s with metadata := s.metadata ++ [{ is_last := true, data := m }] }
+
+/-- reading of `stream.frames_mut().push(f)` -/
+def Stream_push_frame (s : FlacVerif.Gen.Writer.Stream) (f : FlacVerif.Gen.Writer.Frame) : FlacVerif.Gen.Writer.Stream :=
+  { s with frames := s.frames ++ [f] }
+
+/-- reading of `MetadataBlock::from_parts` -/
+def MetadataBlock_from_parts (is_last : Bool) (data : FlacVerif.Gen.Writer.MetadataBlockData) : FlacVerif.Gen.Writer.MetadataBlock :=
+  { is_last := is_last, data := data }
+
 /-- reading of `Frame::from_parts` -/
 def Frame_from_parts (h : FlacVerif.Gen.Writer.FrameHeader) (sfs : List FlacVerif.SubFrame) : FlacVerif.Gen.Writer.Frame :=
   { header := h, subframes := sfs, precomputed_bitstream := none }
@@ -2059,8 +2393,9 @@ def FrameHeader_from_specs (b : FlacVerif.Gen.Headers.BlockSizeSpec) (c : FlacVe
 '''
 
 PS_FUNCS = ["u_to_i", "unary_code", "raw_samples", "residual", "subframe_header", "constant", "verbatim", "fixed_lpc",
-            "quantized_parameters", "lpc", "subframe", "utf8_code", "block_size_code", "sample_rate_code", "frame_header", "frame"]
-PS_NOT = ["stream_info", "metadata_block", "stream", "convert_bits_err"]
+            "quantized_parameters", "lpc", "subframe", "utf8_code", "block_size_code", "sample_rate_code", "frame_header", "frame",
+            "stream_info", "metadata_block", "stream"]
+PS_NOT = ["convert_bits_err"]
 
 
 def nom_check():
